@@ -211,6 +211,11 @@ def handle (j : Json) : Except String Json := do
   | "group_concat" =>
       let xs ← (← argArr j "xs").mapM (fun x => match x with | .str t => pure t.toList | _ => throw "xs: strings")
       pure (jstr (dbGroupConcat (groupConcatArg true (← argOptChars j "sep")) xs))
+  | "json_path" =>
+      let items ← (← argArr j "items").mapM (fun x => match x with
+        | .str t => pure (PathElem.key t.toList)
+        | v => do pure (PathElem.idx (← fromJson? v)))
+      pure (jstr (jsonPathText (← argBool j "json1") items))
   | "like" => pure (.bool (likeMatch (← argOptChar j "esc") (← argChars j "pat") (← argChars j "s")))
   | "sql_replace" => pure (jstr (sqlReplace (← argChars j "old") (← argChars j "new") (← argChars j "s")))
   | "like_ast" =>
